@@ -177,6 +177,8 @@ func main() {
 		err = bindMain(*prop, *tier, *seed, *out, *replay)
 	case "lockscan":
 		err = lockscanMain(*prop, *tier, *seed, *out, *replay)
+	case "batchprobe":
+		err = batchProbeMain(*prop, *tier, *seed, *out, *replay)
 	case "batchstress":
 		err = batchStressMain(*prop, *tier, *seed, *out, *replay)
 	case "wait":
